@@ -1229,4 +1229,30 @@ example := multi_worker_terminates_timed_partial gDuo (by decide) (by decide) (b
   (by decide) (by decide +kernel) [] 10 10 (by decide) (fun _ => 0) (timedRunOfGDuo.take 2) (by decide +kernel)
   (by decide +kernel) (I2N.Trav.Fair.bumpFree_of_B _ _ _ (by decide +kernel)) (by decide +kernel) gDuo_alive_after_two
 
+open I2N.Trav.Fair in
+/-- **backoff_sleeps_a_tenth**: the clock hypothesis `q ≤ d` of `Timed` with `q = 10` (hundredths of a second) is what the
+model announces.  Any graph with edges recorded at both ends (lazily expanded ones included), any reachable state, any real
+worker, positive fuel: if the step ENDS in the back-off sleep, the LAST event it emits is `Event.sleep <worker id> k` with
+`k ≥ 10` — the `asyncio.sleep(round(max(timeout·max_tries/1000, 0.1), 2))` of the back-off branch; whatever the step did
+before (settle a test, walk, clean up), nothing is emitted after it.  One more walk through `iter`, `iterL`, `runLoop`,
+`continueAfter`, `resumeTest`, `resume` (`Fair.resume_sleep`). -/
+theorem backoff_sleeps_a_tenth (g : Graph) (hsym : EdgeSym g) (ncls : Nat)
+    (store : List (String × List (String × String))) (s : State) (h : ReachableF g ncls store s) (w : Nat)
+    (hw : w < g.workers.length) (out : Outcome) (fuel : Nat) (hf : 0 < fuel)
+    (hb : ((resume g s w out fuel).1.wd w).pc = .bounce) :
+    ∃ k, 10 ≤ k ∧ (resume g s w out fuel).2.getLast? = some (Event.sleep (g.worker w).id k) :=
+  resume_sleep g hsym s w out fuel hf hw (h.pinv hsym) hb
+
+/-- non-vacuity: the step of worker 1 in `runOfGDuo` ends asleep; the sleep it announces -/
+example := backoff_sleeps_a_tenth gDuo (edgeSymB_sound (by decide)) 2 []
+  (I2N.Trav.GlobalN.runStepsN gDuo (initState gDuo 2 []) (runOfGDuo.take 1))
+  (.step _ 0 ⟨none, 0⟩ 82 (.init []) (by decide) (by decide)) 1 (by decide) ⟨none, 0⟩ 82 (by decide)
+  (by
+    have h : pcIsBounce ((resume gDuo (I2N.Trav.GlobalN.runStepsN gDuo (initState gDuo 2 []) (runOfGDuo.take 1)) 1
+        ⟨none, 0⟩ 82).1.wd 1).pc = true := by decide +kernel
+    cases hpc : ((resume gDuo (I2N.Trav.GlobalN.runStepsN gDuo (initState gDuo 2 []) (runOfGDuo.take 1)) 1
+        ⟨none, 0⟩ 82).1.wd 1).pc <;> rw [hpc] at h <;> first | rfl | cases h)
+example : (resume gDuo (I2N.Trav.GlobalN.runStepsN gDuo (initState gDuo 2 []) (runOfGDuo.take 1)) 1
+    ⟨none, 0⟩ 82).2.getLast? = some (Event.sleep "net2" 10) := by decide +kernel
+
 end I2N.Props.C02
